@@ -71,6 +71,10 @@ use super::*;
 //@include prelude/fs_canonical_decl.rs
 //@include prelude/memokeys_canon_spec.rs
 //@include build/lspspec_main.rs
+//@include prelude/undecl_avail_spec.rs
+//@include prelude/undecl_spec.rs
+//@include prelude/visit_undecl.rs
+//@include prelude/analyze_undecl.rs
 } // mod pre
 use pre::*;
 
